@@ -117,10 +117,11 @@ class RequestManager(BaseModel):
         :type context: Dict
         :raises RuntimeError: If the request parameter does not have a valid request name as the first item.
         """
-        request_key = request[0]
+        # an empty request, or one whose next element cannot be a request name, does not address anything here
+        request_key = request[0] if request else None
         request_options = request[1:]
 
-        if request_key not in self.request_types:
+        if not isinstance(request_key, (str, int)) or request_key not in self.request_types:
             msg = (
                 f"Request {request} could not be processed because {request_key} is not a valid request name",
                 "within this RequestManager",
@@ -196,10 +197,10 @@ class RequestManager(BaseModel):
     def check_valid(self, request: RequestFormat, context: Dict) -> bool:
         """Check if this request would be valid in the current state of the simulation without invoking it."""
 
-        request_key = request[0]
+        request_key = request[0] if request else None
         request_options = request[1:]
 
-        if request_key not in self.request_types:
+        if not isinstance(request_key, (str, int)) or request_key not in self.request_types:
             return False
 
         request_type = self.request_types[request_key]
